@@ -399,9 +399,11 @@ func ruleGramArity(c *Ctx) []*Obligation {
 	// call evaluation (handler side)
 	if k, ok := pm.byName["Function"]; ok && len(em.handlers[k]) > 0 {
 		h := em.handlers[k][0]
-		key := "calculator.(*ExpressionCalculator)." + h.fn.Name() + "#call#rebuild-in-order"
-		good, why := c.functionHandlerShape(h)
-		o.check(good, key, c.Pos(h.body.Instrs[0].Pos()), why, why)
+		base := "calculator.(*ExpressionCalculator)." + h.fn.Name()
+		cnt, ord := c.functionHandlerShape(h)
+		pos := c.Pos(h.body.Instrs[0].Pos())
+		o.verdict(cnt, base+"#call#pops-count-values", pos)
+		o.verdict(ord, base+"#call#rebuild-in-order", pos)
 	}
 	return o.list
 }
@@ -465,53 +467,239 @@ func (c *Ctx) counterShape(v ssa.Value, parseFn *ssa.Function) (bool, string) {
 	return true, "counter starts at 0, +1 once per parsed argument"
 }
 
-func (c *Ctx) functionHandlerShape(h *handler) (bool, string) {
-	// first Pop gives the count (AsInteger), the loop prepends each further Pop to the accumulated list
+// shapeVerdict: a recognised-good shape, a recognised-wrong shape (a counter-witness), or a shape
+// the rule does not know (undecided - never reported as a violation).
+type shapeVerdict struct {
+	status Status
+	why    string
+}
+
+func (o *obl) verdict(v shapeVerdict, key, pos string) {
+	switch v.status {
+	case Discharged:
+		o.ok(key, pos, v.why)
+	case Violated:
+		o.bad(key, pos, v.why)
+	default:
+		o.undecided(key, pos, v.why)
+	}
+}
+
+// affine is a*n0 + b*j + c over the argument count n0 and the 0-based iteration number j.
+type affine struct {
+	a, b, c int64
+	ok      bool
+}
+
+// functionHandlerShape analyses the call handler: the first Pop is the argument count n0; the other
+// Pop sits in a loop that runs exactly n0 times (counting obligation); the value popped in
+// iteration j (the (n0-j)-th written argument) must end up at position n0-1-j of the list handed
+// to Calculate (ordering obligation).
+func (c *Ctx) functionHandlerShape(h *handler) (count, order shapeVerdict) {
+	und := func(s string) shapeVerdict { return shapeVerdict{Undecided, s} }
 	if len(h.pops) < 2 {
-		return false, "function handler must pop the count and then the arguments"
+		v := shapeVerdict{Violated, "the call handler must pop the argument count and then the arguments"}
+		return v, v
 	}
 	first := h.pops[0]
-	countOK := false
+	var n0 ssa.Value
 	for _, r := range *first.Referrers() {
 		if _, ok := c.callTo(r, pkgVariants, "Variant", "AsInteger"); ok {
-			countOK = true
+			n0 = r.(ssa.Value)
 		}
 	}
-	if !countOK {
-		return false, "the first popped value is not used as the argument count"
+	if n0 == nil {
+		v := shapeVerdict{Violated, "the first popped value is not used as the argument count"}
+		return v, v
+	}
+	if len(h.pops) != 2 {
+		v := und("more than one argument Pop site: shape not recognised")
+		return v, v
+	}
+	pop := h.pops[1]
+	// the loop the Pop sits in: a header phi that is tested in the header's If
+	var loopVar *ssa.Phi
+	var shape string // "down" : phi(n0, p-1) tested > 0 ; "up": phi(0, i+1) tested < n0 ; "rev": phi(n0-1, i-1) tested >= 0
+	isN0 := func(v ssa.Value) bool { return stripConv(v) == n0 }
+	stepOf := func(phi *ssa.Phi, v ssa.Value) (int64, bool) {
+		bo, ok := v.(*ssa.BinOp)
+		if !ok || bo.X != ssa.Value(phi) {
+			return 0, false
+		}
+		k, isK := constInt(bo.Y)
+		if !isK {
+			return 0, false
+		}
+		switch bo.Op {
+		case token.ADD:
+			return k, true
+		case token.SUB:
+			return -k, true
+		}
+		return 0, false
+	}
+	for hb := pop.Block(); hb != nil && loopVar == nil; hb = hb.Idom() {
+		ifi, ok := hb.Instrs[len(hb.Instrs)-1].(*ssa.If)
+		if !ok {
+			continue
+		}
+		cmp, ok := ifi.Cond.(*ssa.BinOp)
+		if !ok {
+			continue
+		}
+		phi, ok := cmp.X.(*ssa.Phi)
+		if !ok || phi.Block() != hb || len(phi.Edges) != 2 {
+			continue
+		}
+		if !hb.Succs[0].Dominates(pop.Block()) {
+			continue
+		}
+		var init ssa.Value
+		var step int64
+		found := false
+		for i, e := range phi.Edges {
+			if st, ok := stepOf(phi, e); ok {
+				step, found = st, true
+				init = phi.Edges[1-i]
+			}
+		}
+		if !found {
+			continue
+		}
+		zero := func(v ssa.Value) bool { k, ok := constInt(v); return ok && k == 0 }
+		switch {
+		case step == -1 && isN0(init) && cmp.Op == token.GTR && zero(cmp.Y):
+			loopVar, shape = phi, "down"
+		case step == 1 && zero(init) && cmp.Op == token.LSS && isN0(cmp.Y):
+			loopVar, shape = phi, "up"
+		case step == -1 && cmp.Op == token.GEQ && zero(cmp.Y):
+			if bo, ok := init.(*ssa.BinOp); ok && bo.Op == token.SUB && isN0(bo.X) {
+				if k, isK := constInt(bo.Y); isK && k == 1 {
+					loopVar, shape = phi, "rev"
+				}
+			}
+		}
+	}
+	if loopVar == nil {
+		v := und("the loop around the argument Pop is not one of the recognised counting loops (for n > 0 {…n--}, for i := 0; i < n; i++, for i := n-1; i >= 0; i--)")
+		return v, v
+	}
+	// exactly one Pop per iteration: the Pop's block is executed once per iteration (it dominates the latch)
+	latchOK := false
+	for _, p := range loopVar.Block().Preds {
+		if loopVar.Block().Dominates(p) && (pop.Block() == p || pop.Block().Dominates(p)) {
+			latchOK = true
+		}
+	}
+	if !latchOK {
+		count = und("the argument Pop is not executed on every iteration of the counting loop")
+	} else {
+		count = shapeVerdict{Discharged, "the first Pop gives the count n; the argument Pop runs once in each of the n iterations of a " + shape + "-counting loop"}
+	}
+	// ordering
+	var eval func(v ssa.Value, depth int) affine
+	eval = func(v ssa.Value, depth int) affine {
+		if depth > 6 {
+			return affine{}
+		}
+		if k, ok := constInt(v); ok {
+			return affine{0, 0, k, true}
+		}
+		if isN0(v) {
+			return affine{1, 0, 0, true}
+		}
+		if v == ssa.Value(loopVar) {
+			switch shape {
+			case "down":
+				return affine{1, -1, 0, true}
+			case "up":
+				return affine{0, 1, 0, true}
+			case "rev":
+				return affine{1, -1, -1, true}
+			}
+		}
+		if bo, ok := v.(*ssa.BinOp); ok && (bo.Op == token.ADD || bo.Op == token.SUB) {
+			x, y := eval(bo.X, depth+1), eval(bo.Y, depth+1)
+			if x.ok && y.ok {
+				if bo.Op == token.ADD {
+					return affine{x.a + y.a, x.b + y.b, x.c + y.c, true}
+				}
+				return affine{x.a - y.a, x.b - y.b, x.c - y.c, true}
+			}
+		}
+		if cv, ok := v.(*ssa.Convert); ok {
+			return eval(cv.X, depth+1)
+		}
+		return affine{}
+	}
+	holdsPop := func(v ssa.Value) bool {
+		return backwardSliceHasStore(v, func(x ssa.Value) bool { return x == ssa.Value(pop) })
+	}
+	inLoop := func(b *ssa.BasicBlock) bool { return loopVar.Block().Dominates(b) && b != loopVar.Block() && loopVar.Block().Succs[0].Dominates(b) }
+	laterLoop := false
+	for _, b := range dominatedBlocks(h.body) {
+		if b == loopVar.Block() || inLoop(b) {
+			continue
+		}
+		for _, p := range b.Preds {
+			if b.Dominates(p) && loopVar.Block().Succs[1].Dominates(b) {
+				laterLoop = true // another loop after the pop loop (could be a reversal)
+			}
+		}
 	}
 	for _, b := range dominatedBlocks(h.body) {
+		if !inLoop(b) {
+			continue
+		}
 		for _, in := range b.Instrs {
-			call, ok := in.(*ssa.Call)
-			if !ok {
-				continue
-			}
-			bi, ok := call.Call.Value.(*ssa.Builtin)
-			if !ok || bi.Name() != "append" {
-				continue
-			}
-			a0, a1 := call.Call.Args[0], call.Call.Args[1]
-			holdsPop := func(v ssa.Value) bool {
-				return backwardSliceHasStore(v, func(x ssa.Value) bool {
-					for _, p := range h.pops[1:] {
-						if x == ssa.Value(p) {
-							return true
-						}
+			switch t := in.(type) {
+			case *ssa.Call:
+				bi, ok := t.Call.Value.(*ssa.Builtin)
+				if !ok || bi.Name() != "append" {
+					continue
+				}
+				a0, a1 := t.Call.Args[0], t.Call.Args[1]
+				_, a1phi := a1.(*ssa.Phi)
+				_, a0phi := a0.(*ssa.Phi)
+				if holdsPop(a0) && a1phi {
+					return count, shapeVerdict{Discharged, "each popped argument is put in front of the already collected ones (stack order reversed back to written order)"}
+				}
+				if a0phi && holdsPop(a1) {
+					if laterLoop {
+						return count, und("popped arguments are appended behind the collected ones and another loop follows (a reversal?): shape not recognised")
 					}
-					return false
-				})
-			}
-			_, a1phi := a1.(*ssa.Phi)
-			_, a0phi := a0.(*ssa.Phi)
-			if holdsPop(a0) && a1phi {
-				return true, "each popped argument is put in front of the already collected ones (stack order reversed back to written order)"
-			}
-			if a0phi && holdsPop(a1) {
-				return false, "popped arguments are appended behind the collected ones: the argument list reaches the function reversed"
+					return count, shapeVerdict{Violated, "popped arguments are appended behind the collected ones: the argument list reaches the function reversed"}
+				}
+			case *ssa.Store:
+				if t.Val != ssa.Value(pop) {
+					continue
+				}
+				ia, ok := t.Addr.(*ssa.IndexAddr)
+				if !ok {
+					continue
+				}
+				if _, lit := ia.X.(*ssa.Alloc); lit {
+					continue // element of a slice literal: judged at the append that uses it
+				}
+				mk, isMake := ia.X.(*ssa.MakeSlice)
+				if !isMake || !isN0(mk.Len) {
+					return count, und("the argument is stored into a list that is not make([]…, count): shape not recognised")
+				}
+				ix := eval(ia.Index, 0)
+				switch {
+				case !ix.ok:
+					return count, und("the index the popped argument is stored at is not an affine function of the count and the loop variable")
+				case ix.a == 1 && ix.b == -1 && ix.c == -1:
+					return count, shapeVerdict{Discharged, "the argument popped in iteration j is stored at index count-1-j (stack order reversed back to written order)"}
+				case ix.a == 0 && ix.b == 1 && ix.c == 0 && !laterLoop:
+					return count, shapeVerdict{Violated, "the argument popped in iteration j is stored at index j: the argument list reaches the function reversed"}
+				default:
+					return count, und(fmt.Sprintf("the popped argument is stored at index %d·count%+d·j%+d: not recognised", ix.a, ix.b, ix.c))
+				}
 			}
 		}
 	}
-	return false, "cannot find the argument-list rebuild"
+	return count, und("cannot find how the popped arguments are collected")
 }
 
 // backwardSliceHasStore: v is a slice of a fresh array one of whose elements is stored from a value satisfying pred.
